@@ -18,7 +18,7 @@ ENGINES = [
 # property id -> dict(level text, note, technique, design_ref, thorough(bool))
 CHECKS = {
     "C19": dict(
-        text="TLC enumerates the two-layer PQueue specification (abstract bags vs Go slices + container/heap) exhaustively for all push/pop/peek/reverse histories up to the bound; every emitted history is replayed on utils.PriorityQueue and every recorded call is validated against the abstract layer by PQueueTrace; seeded random histories extend beyond the bound. Exhaustive within the bound, sampled beyond it.",
+        text="TLC enumerates the two-layer PQueue specification (abstract bags vs Go slices + container/heap) exhaustively for all push/pop/peek/reverse histories up to the bound, starting from queues constructed with zero, one or two initial items; every emitted history is replayed on utils.PriorityQueue and every recorded call is validated against the abstract layer by PQueueTrace; seeded random histories extend beyond the bound. Exhaustive within the bound, sampled beyond it.",
         note="Trusts TLC, Go's container/heap and the JSON trace plumbing; items are distinguishable (priority, tag) pairs.",
         technique="TLA+ model checking (TLC) + replay of TLC-generated histories on the real queue + TLC trace validation",
         ref="5/C19"),
@@ -36,7 +36,7 @@ CHECKS.update({
         text="PartitionMap.tla specifies the sequential map with exact outcomes and counters (TLC: CountersOK, FailedUnchanged; Hnsw refines it, property RefinesMap). For each of the 1000 map states TLC emits, the harness tries every single-item change, save/load and seeded batch changes on the real partition state machine; HnswTrace validates outcome, contents, counters and the byte-size window of every call.",
         note=FAM_NOTE, technique=FAM_TECH, ref="5/C02"),
     "C07": dict(
-        text="Clause 1 (exact top-k on small insert-only collections) is the invariant SmallExact of Hnsw.tla, checked exhaustively by TLC and, on the real index, by HnswTrace on every replayed history and on random insert-only histories with M up to 16. Clause 2 (recall floor) is statistical and is not decided by the specification.",
+        text="Clause 1 (exact top-k on small insert-only collections) is the invariant SmallExact of Hnsw.tla, checked exhaustively by TLC and, on the real index, by HnswTrace on every replayed history and on random insert-only histories with M up to 16 (cosine universes contain collinear points of different norm, where 1 - cos is zero up to float32 rounding); a search that fails inside the premise counts as not exact. Clause 2 (recall floor) is statistical and is not decided by the specification.",
         note=FAM_NOTE + " The recall clause is outside the specification (DESIGN.md section 6).", technique=FAM_TECH, ref="5/C07"),
     "C08": dict(
         text="Hnsw.tla's RoundTrip invariant (a snapshot of every reachable state reproduces items, links among live items, entry point and every probe answer) is checked exhaustively; on the real code every save/load step of every replayed history goes through partition.snapshot/processSnapshot into a fresh and a used index and HnswTrace compares both with the pre-state.",
@@ -61,7 +61,7 @@ CHECKS.update({
         text="FanOut.tla models the worker / helper / collector / context protocol of Dataset.Search and SearchPartitions with the switch CloseChans; TLC checks NoNilNil, OkMeansAll, FailLoud and termination exhaustively for 3 workers x {ok, err, slow} (holds for 'none', counterexamples for 'both' and 'resOnly'). FanOutGen emits every complete behaviour's environment schedule (worker completion order, collector iterations, cancellation); the harness forces them on the real Dataset through gates at the collector loop and scripted remote nodes, and FanOutTrace accepts a call only if its return is one the repaired model allows (exact top-k of the union on success, an error whenever a worker failed, was stuck or the context was cancelled, never a hang or an empty success).",
         note=FAN_NOTE, technique="TLA+ model checking (TLC) + forcing TLC-generated schedules on the real Dataset via gates + TLC trace validation", ref="5/C09"),
     "C17": dict(
-        text="FanOutSize.tla models SizeInfo's inline local counting, per-partition goroutines (switch LoopVarShared for the go 1.14 loop-variable capture), the helper that closes errorCh and the counting collector; TLC checks EachOnce / FailLoud / termination exhaustively for 3 partitions x local/remote x ok/fail. The TLC-generated schedules are forced on the real Dataset with scripted remote nodes holding distinct power-of-two sizes; FanOutTrace requires exact sums with every remote partition asked exactly once, or an error.",
+        text="FanOutSize.tla models SizeInfo's inline local counting, per-partition goroutines (switch LoopVarShared for the go 1.14 loop-variable capture), the helper that closes errorCh and the counting collector; TLC checks EachOnce / FailLoud / termination exhaustively for 3 partitions x local/remote x ok/fail. The TLC-generated schedules are forced on the real Dataset with scripted remote nodes holding distinct power-of-two sizes, for placements with no, one and as many local partitions as remote ones; FanOutTrace requires exact sums with every remote partition asked exactly once, or an error. The serving side (Dataset.PartitionInfo) must answer for hosted partitions only (ForeignPartitionAnswered).",
         note=FAN_NOTE, technique="TLA+ model checking (TLC) + forcing TLC-generated schedules on the real Dataset via gates + TLC trace validation", ref="5/C17"),
 })
 
@@ -77,7 +77,7 @@ RAFT_NOTE = ("etcd/raft and Badger are trusted. Nodes are simulated in one proce
              "Crash instants inside one Badger flush are not modelled. Convergence is decided on bounded runs and a stall only counts if it reproduces.")
 CHECKS.update({
     "C05": dict(
-        text="RaftHost.tla models the ready loop of storage/raft/group.go over an abstract etcd-style library, with durable variables, a crash at every boundary of the cycle, restart, message loss, and the switches RestartMode / SendPolicy. TLC checks NoBad (Attested, ApplySafety, apply-only-durable), ElectionSafety and term >= durable term exhaustively for 2 replicas (3 replicas with symmetry in the thorough tier; counterexamples for RestartMode=start and SendPolicy=allFirst). On the real code dozens (thorough: hundreds) of scenarios - every boundary x role x cycle number, 1/3/5 replicas, drop/duplicate/delay, partitions, snapshots, a crashed minority of two - run on real RaftGroups with the verif hooks recording every boundary; RaftHostTrace rebuilds each node's durable state from the 'saved' events and checks Rebootstrap, ResumeOlder, Unattested, ApplyMismatch, ApplyOrder, ApplyNotDurable, Panic and NoConverge on every run.",
+        text="RaftHost.tla models the ready loop of storage/raft/group.go over an abstract etcd-style library, with durable variables, a crash at every boundary of the cycle, restart, message loss, and the switches RestartMode / SendPolicy. TLC checks NoBad (Attested, ApplySafety, apply-only-durable), ElectionSafety and term >= durable term exhaustively for 2 replicas (3 replicas with symmetry in the thorough tier; counterexamples for RestartMode=start and SendPolicy=allFirst). On the real code dozens (thorough: hundreds) of scenarios - every boundary x role x cycle number, 1/3/5 replicas, drop/duplicate/delay, partitions, local snapshots and lost snapshot messages to a follower behind the compacted log, a leader forced to step down (by a returning follower's vote request, by the new leader's delayed first append) and killed inside the very cycle in which it stepped down, a crashed minority of two - run on real RaftGroups with the verif hooks recording every boundary; RaftHostTrace rebuilds each node's durable state from the 'saved' events and checks Rebootstrap, ResumeOlder, Unattested, ApplyMismatch, ApplyOrder, ApplyNotDurable, Panic and NoConverge on every run.",
         note=RAFT_NOTE, technique="TLA+ model checking (TLC) + crash/fault scenarios over the spec's crash points on real replicas + TLC trace validation of hook-recorded runs", ref="5/C05"),
     "C03": dict(
         text="The same RaftHost model and scenarios, with real Datasets on top of the replicated partitions: the client's submits and acknowledgements and every replica's final contents are part of the trace; RaftHostTrace requires every acknowledged write to be in the applied log (AckedLost), every applied change to have been submitted (NeverSubmitted), and every live replica's recovered contents to equal the sequential map applied to the applied log (ContentsVsLog), for a crash at every boundary of the ready cycle (before/after wal.Save, after each applied entry, around local snapshots) followed by restart and replay.",
@@ -93,8 +93,8 @@ CHECKS.update({
 
 CHECKS.update({
     "C10": dict(
-        text="Cluster.tla states routing as a fixed owner function with entry nodes that host or do not host the owner and six API paths (TLC: OwnerOnly / Stable hold; a path computing another owner gives a counterexample). On the real code every partition lives on its own scripted node, so the node (and for batch paths the partition id in the request) that receives a write identifies the owner the real Dataset computed; for partition counts 1,2,3,7,16, ids spanning the extremes of both 64-bit halves plus seeded random ids, three entry Datasets (outside the owners, hosting partition 0, a re-created one) and all six paths, ClusterTrace requires a defined owner in range for every call and the same owner for the same id everywhere.",
-        note="The quantifier 'all 128-bit ids, partition counts up to 1024' is arithmetic on one pure function beyond TLC's integers and is only sampled (DESIGN.md section 6). Owners are scripted gRPC servers.",
+        text="Cluster.tla states routing as a fixed owner function with entry nodes that host or do not host the owner and six API paths (TLC: OwnerOnly / Stable hold; a path computing another owner gives a counterexample). On the real code every partition lives on its own scripted node, so the node (and for batch paths the partition id in the request) that receives a write identifies the owner the real Dataset computed; for partition counts 1,2,3,7,16, ids spanning the extremes of both 64-bit halves plus seeded random ids, three entry Datasets (outside the owners, hosting partition 0, a re-created one) and all six paths, plus batches of 2-8 items spanning partitions whose items are observed one by one where they arrive, ClusterTrace requires a defined owner in range for every call and the same owner for the same id everywhere. On real server processes a dataset's partition list (what routing indexes into) must keep the order it was created with through descriptor reads, log compaction, snapshot restore and restart (ClusterViewTrace: PartitionOrderChanged).",
+        note="The quantifier 'all 128-bit ids, partition counts up to 1024' is arithmetic on one pure function beyond TLC's integers and is only sampled (DESIGN.md section 6). Owners are scripted gRPC servers in the routing phase; the partition-order phase runs on real servers.",
         technique="TLA+ model checking (TLC) + TLC trace validation of routed writes observed at scripted owners", ref="5/C10"),
 })
 
@@ -102,17 +102,17 @@ L2_NOTE = ("Real anndb server processes (cmd/anndb's main with the verif hooks w
            "crash = SIGKILL; zero-group snapshots are requested through the verif hook instead of waiting for 5000 entries; views are read after a bounded quiescence wait.")
 CHECKS.update({
     "C14": dict(
-        text="Catalogue.tla models the catalogue state machine over the zero group's log with snapshots, restores and restarts, and the two switches RestoreReplaces / WireFirst (TLC: every node equals the replay of the log it applied - holds in the repaired positions, counterexamples for add-only restore and for starting the apply loop before the consumer is wired). Four scenarios run on three real server processes - create / delete through different nodes, kill -9 and restart of a follower and of the bootstrap node, with the consumer wired late (gate), after a zero-group snapshot, after a node left - and ClusterViewTrace compares every node's List() with what the acknowledged operations imply (ids, dimension, partitions, replica sets identical on all nodes, also after restart).",
-        note=L2_NOTE + " The add-only restore of a catalogue snapshot into a non-empty manager (lagging follower) is modelled (RestoreReplaces) but not reproduced on real servers.",
+        text="Catalogue.tla models the catalogue state machine over the zero group's log with snapshots, restores and restarts, and the two switches RestoreReplaces / WireFirst (TLC: every node equals the replay of the log it applied - holds in the repaired positions, counterexamples for add-only restore and for starting the apply loop before the consumer is wired). Seven scenarios run on three to five real server processes - create / delete through different nodes, kill -9 and restart of a follower and of the bootstrap node, with the consumer wired late (gate), after a zero-group snapshot (with descriptor reads before it), after a node left, a follower that was down while datasets were created and deleted and the logs compacted and that catches up through a snapshot installed into the catalogue it already holds, a node leaving while a member is down, a lost join hand-shake - and ClusterViewTrace compares every node's List() with what the acknowledged operations imply (ids, dimension, partitions, replica sets identical on all nodes, also after restart).",
+        note=L2_NOTE + "",
         technique="TLA+ model checking (TLC) + scenarios on real server processes + TLC trace validation of every node's catalogue view", ref="5/C14"),
     "C20": dict(
-        text="Membership.tla models the address book fed by the membership log, the join hand-shake, compaction and restart, with the switches SnapshotHasBook / BootHasAddr (TLC: a caught-up member lists exactly the members with usable addresses - holds in the repaired positions, counterexamples for both shipped positions; the empty bootstrap address was found by TLC first and then confirmed on real servers). The same four real-server scenarios; ClusterViewTrace compares every node's ListNodes() with the acknowledged joins and removals, including after restart from a compacted log.",
+        text="Membership.tla models the address book fed by the membership log, the join hand-shake, compaction and restart, with the switches SnapshotHasBook / BootHasAddr (TLC: a caught-up member lists exactly the members with usable addresses - holds in the repaired positions, counterexamples for both shipped positions; the empty bootstrap address was found by TLC first and then confirmed on real servers). The same real-server scenarios, including a join whose hand-shake is lost on every address (the node must report the failure - if it claims to be ready the join counts as acknowledged and every member has to list it), a join list whose first address is dead, and a retry; ClusterViewTrace compares every node's ListNodes() with the acknowledged joins and removals, including after restart from a compacted log.",
         note=L2_NOTE, technique="TLA+ model checking (TLC) + scenarios on real server processes + TLC trace validation of every node's membership view", ref="5/C20"),
 })
 
 CHECKS.update({
     "C18": dict(
-        text="ControlPlane.tla models the zero group's apply goroutine against the allocator loop (locks, the capacity-10 notification channel, the unbuffered updates channel, the loop's blocking proposal) and TLC's deadlock check decides it per entry sequence and switch position: create-only, membership-only and not-under-replicated logs are deadlock-free, send-under-lock (as shipped) and an under-replicated partition deadlock. The real cluster.Conn + Allocator + DatasetManager run over a scripted zero group for every entry sequence up to length 3 (thorough: 4) over {join, leave, create R=1, create R=2, delete}, queued one by one or as a restart burst, plus TLC's deadlock trace; a watchdog decides whether the log drained and the node still applies a further entry, and a stall's signature is the blocked frames of the apply goroutine and the allocator loop. Real servers are killed and restarted with existing datasets, with and without a catalogue snapshot.",
+        text="ControlPlane.tla models the zero group's apply goroutine against the allocator loop (locks, the capacity-10 notification channel, the unbuffered updates channel, the loop's blocking proposal) and TLC's deadlock check decides it per entry sequence and switch position: all entry sequences are deadlock-free with the worker queue of the repaired allocator (switch InlineNodeChanges = FALSE); the shipped positions - send under lock, inline handling of a node change with a dataset creation behind it, inline handling with more membership changes behind it than the notification channel holds - each deadlock. The real cluster.Conn + Allocator + DatasetManager run over a scripted zero group for every entry sequence up to length 3 (thorough: 4) over {join, leave, create R=1, create R=2, delete}, queued one by one or as a restart burst, plus TLC's deadlock trace, membership histories of 18 (thorough: 60) changes with catalogue changes in between, and replica-set changes proposed by other nodes for partitions this node does or does not host; a watchdog decides whether the log drained and the node still applies a further entry, and a stall's signature is the blocked frames of the apply goroutine and the allocator's goroutines; a panic on one of those goroutines is reported the same way (crash@frames). Real servers are killed and restarted with existing datasets, with and without a catalogue snapshot.",
         note="The zero group is scripted (one apply goroutine, entries in order). A stall = log not drained 6 s after the last entry. Two open known findings (one wait-for cycle, both lock orders) are suppressed by their exact signature; any other stall is a violation.",
         technique="TLA+ deadlock checking (TLC) + entry sequences on the real control plane under a watchdog + TLC trace validation", ref="5/C18"),
 })
@@ -126,7 +126,7 @@ CHECKS.update({
 
 CHECKS.update({
     "C13": dict(
-        text="HnswConc.tla cuts Insert / Remove / Search at the points between which another goroutine can observe an intermediate state (the verif yield points) and TLC checks LenOK, QuiescentEpLive and NoNilDeref for thread programs: one writer with readers (the server's usage) and two writers (the benchmark's); the shipped hand-over (switch SafeHandOver = FALSE) gives two counterexamples with two writers, the repaired one none - TLC also found the hole in the first version of the repair. On the real index the TLC counterexamples and the single writer parked at each yield point are forced through the yield gates, and free-running stress runs (1 writer + readers, many writers) are recorded with call-interval stamps; HnswConcTrace checks: no panic, entry point live and counter exact at quiescence, all C01 probe checks at quiescence, successful inserts / removes per id balance and agree with final presence, and no concurrent search returns a ghost (an item definitely removed before the search began) or a wrong score.",
+        text="HnswConc.tla cuts Insert / Remove / Search at the points between which another goroutine can observe an intermediate state (the verif yield points) and TLC checks LenOK, QuiescentEpLive and NoNilDeref for thread programs: one writer with readers (the server's usage) and two writers (the benchmark's); the shipped hand-over (switch SafeHandOver = FALSE) gives two counterexamples with two writers, the repaired one none - TLC also found the hole in the first version of the repair. On the real index the TLC counterexamples and the single writer parked at each yield point are forced through the yield gates, and free-running stress runs (1 writer + readers, many writers) are recorded with call-interval stamps; HnswConcTrace checks: no panic, entry point live and counter exact at quiescence, all C01 probe checks at quiescence, successful inserts / removes per id balance and agree with final presence, and no concurrent search returns a ghost (an item definitely removed before the search began) or a wrong score. A run in which the Go runtime aborts the process inside index code (concurrent map iteration and map write) is a violation (RuntimeFatal).",
         note="'No data races' is a statement about the Go memory model and is not decided (the stress binary is also run under -race and the count recorded). Per-id linearizability is checked through a necessary condition only. Link sets are abstracted in the model; the real link structure is checked at quiescence through the C01 probes.",
         technique="TLA+ model checking (TLC) of the operations cut at their yield points + gate-forced counterexample schedules and stress traces of the real index + TLC trace validation", ref="5/C13"),
 })
